@@ -17,7 +17,7 @@ def decorate(run, t, k):
         t.metadata_schema = tskit.MetadataSchema({"codec": "json"})
         t.metadata = {"k": k, "s": "é参"}
     if rng.random() < 0.5:
-        t.time_units = rng.choice(["generations", "years", "µs"])
+        t.time_units = rng.choice(["generations", "years", "µs", "", "unknown"])
     for name in ("nodes", "edges", "sites", "mutations", "individuals", "populations", "migrations"):
         if rng.random() < 0.3:
             getattr(t, name).metadata_schema = tskit.MetadataSchema({"codec": "struct", "type": "object", "properties": {}}) \
